@@ -743,16 +743,31 @@ def r13(cx):
                     bad = list(dims)
                     bad[k] = dims[k] + 1
                     variants.append((f"fixed dimension {k} of another length", bad))
+            variants.append(("two positional arguments", "2args"))
+            for k in range(nd):
+                if mask[k]:
+                    bad = list(dims)
+                    bad[k] = dims[k] + 1
+                    variants.append((f"dynamic dimension {k} of another length (update only)", ("upd", bad)))
             for what, vshape in variants:
                 if vshape is None:
                     continue
                 for op in ("construct", "update"):
+                    if vshape == "2args" and (op == "update" or any(mask)):
+                        continue
+                    if isinstance(vshape, tuple) and vshape[0] == "upd":
+                        if op == "construct":
+                            continue
+                        vshape = vshape[1]
                     n += 1
-                    label = f"array[shape={cshape}] {op} from an array-like of shape {tuple(vshape)} ({what})"
+                    label = f"array[shape={cshape}] {op} from " + (f"an array-like of shape {tuple(vshape)} ({what})" if vshape != "2args" else "two positional arguments")
 
                     def thunk():
                         cls = lab.array("Arr", cshape, tuple(range(nd)), I.global_lookup("scalar", "Float64"))
-                        if op == "construct":
+                        if vshape == "2args":
+                            val = lab.value("e", dims, nplike=True)
+                            I.call(cls, [val, val], {"_buffer": W.buffer})
+                        elif op == "construct":
                             val = lab.value("e", vshape, nplike=True)
                             I.call(cls, [val], {"_buffer": W.buffer})
                         else:
@@ -784,6 +799,150 @@ def r13(cx):
                             late = True
                     cx.check(not late, None, construct=label, detail="refused with no allocation or write before the raise", bad_detail="the refusal comes after an allocation / a write", anchor=anchor, sub=op)
     cx.need(n >= 16, f"only {n} shape-refusal cases")
+
+
+# ------------------------------------------------------------------------------------------ R14 reference writers/readers
+@rule("R14", ["C08", "C05", "C09", "C11"], "reference writers and readers, evaluated: relative encoding, aliasing only inside the holder's buffer, duplicate otherwise, null, member id, refusal of non-members")
+def r14(cx):
+    """`Ref._to_buffer/_from_buffer`, `MetaUnionRef._to_buffer/_from_buffer` and `UnionRef.get` of the current source are
+    evaluated on an abstract memory for every kind of value the documentation names: None, an object of the referent
+    type in the holder's buffer (must be ALIASED: stored word = its position - slot position, nothing constructed), the
+    same in another buffer and plain data (a NEW object must be constructed in the holder's buffer and referenced), for
+    unions additionally every member class (recorded id = position in _reftypes), the (name, data) form, the 1-tuple
+    and empty-tuple forms, another UnionRef as source, and a non-member (must be refused before the slot is written).
+    After each write the readers must return None / a view of the right class at the referent's position."""
+    m = cx.m
+    lab = Lab(m)
+    I, W = lab.I, lab.W
+    SLOT = Poly.atom("slot")
+    sc = I.global_lookup("scalar", "Float64")
+
+    def setup():
+        T = lab.struct("T", [("v", sc)])
+        T2 = lab.struct("T2", [("w", sc), ("x", sc)])
+        X = lab.struct("X", [("q", sc)])
+        Ref = I.global_lookup("ref", "Ref")
+        R = I.call(Ref, [T], {})
+        MU = I.global_lookup("ref", "MetaUnionRef")
+        U0 = I.global_lookup("ref", "UnionRef")
+        U = I.call(I.class_attrs(MU)["__new__"], [MU, "U", (U0,), {"_reftypes": (T, T2)}], {})
+        other = W.mk_buffer("other")
+        return T, T2, X, R, U, other
+
+    NULLV = -(2 ** 63)
+
+    def word(mem, pos):
+        v = mem.get(repr(pos))
+        return None if v is None else pol(v)
+
+    cases = []
+    # (label, kind 'ref'|'union', builder(T,T2,X,R,U,other) -> value, expectation)
+    cases.append(("Ref <- None", "ref", lambda e: None, ("null",)))
+    cases.append(("Ref <- object of the referent type in the holder's buffer", "ref", lambda e: I.call(e["T"], [], {"v": Opaque("a"), "_buffer": W.buffer}), ("alias", "T")))
+    cases.append(("Ref <- object of the referent type in ANOTHER buffer", "ref", lambda e: I.call(e["T"], [], {"v": Opaque("a"), "_buffer": e["other"]}), ("new", "T")))
+    cases.append(("Ref <- plain data", "ref", lambda e: {"v": Opaque("a")}, ("new", "T")))
+    cases.append(("UnionRef <- None", "union", lambda e: None, ("null",)))
+    cases.append(("UnionRef <- ()", "union", lambda e: (), ("null",)))
+    cases.append(("UnionRef <- first member in the holder's buffer", "union", lambda e: I.call(e["T"], [], {"v": Opaque("a"), "_buffer": W.buffer}), ("alias", "T", 0)))
+    cases.append(("UnionRef <- second member in the holder's buffer", "union", lambda e: I.call(e["T2"], [], {"w": Opaque("a"), "x": Opaque("b"), "_buffer": W.buffer}), ("alias", "T2", 1)))
+    cases.append(("UnionRef <- (member,) 1-tuple", "union", lambda e: (I.call(e["T2"], [], {"w": Opaque("a"), "x": Opaque("b"), "_buffer": W.buffer}),), ("alias", "T2", 1)))
+    cases.append(("UnionRef <- member in ANOTHER buffer", "union", lambda e: I.call(e["T2"], [], {"w": Opaque("a"), "x": Opaque("b"), "_buffer": e["other"]}), ("new", "T2", 1)))
+    cases.append(("UnionRef <- ('T2', data)", "union", lambda e: ("T2", {"w": Opaque("a"), "x": Opaque("b")}), ("new", "T2", 1)))
+    cases.append(("UnionRef <- object of a class that is no member", "union", lambda e: I.call(e["X"], [], {"q": Opaque("a"), "_buffer": W.buffer}), ("refuse",)))
+    cases.append(("UnionRef <- another UnionRef (same buffer) pointing to a member", "union", "usrc", ("alias-through", "T", 0)))
+    n = 0
+    for label, kind, build, exp in cases:
+        n += 1
+        out = {}
+
+        def thunk():
+            T, T2, X, R, U, other = setup()
+            env = {"T": T, "T2": T2, "X": X, "R": R, "U": U, "other": other}
+            if build == "usrc":
+                tgt = I.call(T, [], {"v": Opaque("a"), "_buffer": W.buffer})
+                val = I.call(U, [tgt], {"_buffer": W.buffer})
+                out["target"] = tgt
+            else:
+                val = build(env)
+                out["target"] = val[0] if isinstance(val, tuple) and len(val) == 1 else val
+            writer = R if kind == "ref" else U
+            n0 = len(I.effects)
+            I.call(I.getattr(writer, "_to_buffer"), [W.buffer, Sym(SLOT), val], {})
+            out["eff"] = list(I.effects[n0:])
+            out["mem"] = dict(I.mem)
+            out["read"] = I.call(I.getattr(writer, "_from_buffer"), [W.buffer, Sym(SLOT)], {})
+            if kind == "union":
+                h = Obj("instance", {"_buffer": W.buffer, "_offset": Sym(SLOT)}, cls=U)
+                out["get"] = I.call(I.getattr(h, "get"), [], {})
+            out["env"] = env
+            return None
+
+        res = I.explore(thunk, max_paths=8)
+        anchor = "ref::Ref._to_buffer" if kind == "ref" else "ref::MetaUnionRef._to_buffer"
+        if exp[0] == "refuse":
+            ok = all(r["exc"] is not None and r["exc"].etype in ("ValueError", "TypeError") for r in res)
+            wrote = any(any(e.kind in ("write", "write_array") and getattr(e, "pos", None) is not None and (pol(e.pos) - SLOT).is_const() for e in r["effects"]) for r in res)
+            cx.check(ok and not wrote, None, construct=label, detail="refused before the slot is written", bad_detail=("a value that is no member is accepted" if not ok else "the slot is written before the refusal"), anchor=anchor, sub="refuse")
+            continue
+        if len(res) != 1 or res[0]["exc"] is not None:
+            e = res[0]["exc"]
+            cx.bad(None, construct=label, detail=f"evaluation raises {e.etype if e else 'fork'}: {e.msg if e else res[0]['conds']}", anchor=anchor, sub="eval")
+            continue
+        mem, eff = out["mem"], out["eff"]
+        w0 = word(mem, SLOT)
+        w1 = word(mem, SLOT + Poly.const(8))
+        allocs = [e for e in eff if e.kind == "alloc"]
+        probs = []
+        rd = out["read"]
+        if exp[0] == "null":
+            if w0 != Poly.const(NULLV):
+                probs.append(f"null is stored as {w0!r}, the reserved value is -2**63")
+            if kind == "union" and w1 != Poly.const(-1):
+                probs.append(f"null member id is stored as {w1!r}, the reserved value is -1")
+            if rd is not None or (kind == "union" and out.get("get") is not None):
+                probs.append("a null reference does not read back as None")
+            if allocs:
+                probs.append("writing null allocates")
+        else:
+            tgt = out["target"]
+            clsname = exp[1]
+            if exp[0] in ("alias", "alias-through"):
+                tpos = pol(I.getattr(tgt, "_offset"))
+                if allocs:
+                    probs.append(f"an object that already lives in the holder's buffer is duplicated ({len(allocs)} allocation(s)) instead of being shared: later writes through either handle are not seen by the other")
+                if w0 != tpos - SLOT:
+                    probs.append(f"stored word is {w0!r}, expected (position of the object - position of the slot) = {(tpos - SLOT)!r}")
+                want_pos = tpos
+            else:
+                mine = [e for e in allocs if e.buf is W.buffer]
+                if len(mine) != 1:
+                    probs.append(f"{len(mine)} object(s) allocated in the holder's buffer, expected exactly one new object of the referent type")
+                    want_pos = None
+                else:
+                    want_pos = pol(mine[0].pos)
+                    if w0 != want_pos - SLOT:
+                        probs.append(f"stored word is {w0!r}, expected (position of the new object - position of the slot) = {(want_pos - SLOT)!r}: the reference does not denote the object created in the holder's buffer")
+                if any(e.buf is not W.buffer for e in allocs):
+                    probs.append("an object is allocated in another buffer than the holder's")
+            if kind == "union" and w1 != Poly.const(exp[2]):
+                probs.append(f"member id stored is {w1!r}, the member is number {exp[2]} of _reftypes")
+            for nm, r_ in (("_from_buffer", rd),) + ((("get", out.get("get")),) if kind == "union" else ()):
+                if not isinstance(r_, Obj):
+                    probs.append(f"{nm} returns {r_!r} instead of a view of the referent")
+                    continue
+                rc = r_.cls
+                if getattr(rc, "name", None) != clsname:
+                    probs.append(f"{nm} returns a view of class {getattr(rc, 'name', rc)!r}, the referent is a {clsname}")
+                if want_pos is not None and pol(I.getattr(r_, "_offset")) != want_pos:
+                    probs.append(f"{nm} views position {I.getattr(r_, '_offset')!r}, the referent is at {want_pos!r}")
+                if I.getattr(r_, "_buffer") is not W.buffer:
+                    probs.append(f"{nm} views another buffer than the holder's")
+        if probs:
+            for msg in probs[:2]:
+                cx.bad(None, construct=f"{label}: {msg}", detail="reference semantics (alias in the same buffer, new object otherwise, relative encoding, reserved null)", anchor=anchor, sub=exp[0])
+        else:
+            cx.ok(None, construct=label, detail={"null": "reserved null written, reads back None", "alias": "aliased: stored word = object - slot, nothing constructed, readers view the object", "alias-through": "refers to the object the source union points to", "new": "one new object in the holder's buffer, referenced relatively, readers view it"}[exp[0]], anchor=anchor, sub=exp[0])
+    cx.need(n >= 13, "R14 cases")
 
 
 # ------------------------------------------------------------------------------------------ L1b bulk path
